@@ -364,3 +364,67 @@ def r4_sources_untouched(ck, P):
                 ck.violation(R, f.name, 'source image parameter %s' % pn, 'drawing call %s may store to memory reached from its %s image: %s' % (f.name, pn, why), '%s:%d' % (f.file, f.line))
             else:
                 ck.ok(R, '%s(%s)' % (f.name, pn))
+
+
+def r7_source_iterators_do_not_write_their_image(ck, P, rid='C16-R7'):
+    """T-EFF: the functions an implementation registers as source iterators (pixman_iter_info_t entries with ITER_SRC, and the fini
+    callbacks they install) read a source image that other threads may be reading too.  They do not write the image object: no store
+    whose address is a field of iter->image, and no call that hands iter->image to a function writing through that parameter (taking a
+    reference counts: ref_count is a plain integer of the shared object)."""
+    from . import tables
+    R = ck.rule(rid, 'no function registered as initializer / get_scanline of a source iterator (ITER_SRC entries of every implementation\'s iterator table), and no fini callback such a function installs, stores into a field of iter->image or passes iter->image to a callee that writes through that parameter (pixman_image_ref / unref included): a source shared read-only between threads is not modified by drawing from it', floor=30)
+    IT = P.enum('iter_flags_t')
+    W = param_write_summaries(P)
+    fns = {}
+    for u, g, t in tables.iter_tables(P):
+        for e in t:
+            if not (e['iter_flags'] & IT['ITER_SRC']):
+                continue
+            for k in ('initializer', 'get_scanline'):
+                nm = tables.fname(e[k])
+                if nm:
+                    f = u.functions.get(nm) or P.fn(nm, required=False)
+                    if f is not None:
+                        fns[f] = '%s (%s)' % (nm, g['name'])
+    # fini callbacks installed by those functions
+    for f in list(fns):
+        for x in f.insts():
+            if x.op == 'store' and f.last_field(f.path(x.a[1])) == 'pixman_iter_t.fini' and x.a[0][0] == 'f':
+                h = P.resolve(f, x.a[0][1])
+                if h is not None:
+                    fns.setdefault(h, '%s (fini installed by %s)' % (h.name, f.name))
+    if not fns:
+        raise AnalysisBroken('%s: no source iterator functions found in the iterator tables' % rid)
+    def from_image(f, o, seen=None):
+        """is the pointer the value of iter->image (or a cast of it)?"""
+        seen = set() if seen is None else seen
+        y = f.v(o) if o and o[0] == 'v' else None
+        if y is None or y.i in seen:
+            return False
+        seen.add(y.i)
+        if y.op == 'load':
+            return f.last_field(f.path(y.a[0])) == 'pixman_iter_t.image'
+        if y.op in ('bitcast', 'phi', 'select'):
+            return any(from_image(f, a, seen) for a in (y.a if y.op != 'select' else y.a[1:]) if a)
+        return False
+    for f, what in sorted(fns.items(), key=lambda kv: kv[1]):
+        ck.saw(f)
+        bad = None
+        for x in f.insts():
+            if x.op == 'store':
+                # address = field of the image object (not pixel memory, which is reached through a load of bits)
+                b = f.path(x.a[1])
+                base = b[0]
+                if base[0] == 'load' and base[1][1] and base[1][1][-1] == 'pixman_iter_t.image' and b[1]:
+                    bad = (x, 'stores into %s of iter->image' % b[1][-1])
+            elif x.op == 'call' and x.callee:
+                g = P.resolve(f, x.callee)
+                if g is None:
+                    continue
+                for k, a in enumerate(x.a):
+                    if from_image(f, a) and k in W.get(g, set()):
+                        bad = (x, 'hands iter->image to %s, which writes through that parameter' % x.callee)
+        if bad:
+            ck.violation(R, f.name, 'source iterator writes its image', '%s %s at %s: the image a source iterator reads may be shared read-only between threads, so every drawing call from it races on that write (a reference count that drifts frees the image early or never)' % (what, bad[1], bad[0].loc()), bad[0].loc())
+        else:
+            ck.ok(R, what)
